@@ -91,6 +91,7 @@ class Result:
         self.assigns = {}    # (bb, idx) -> set of values assigned there (None = unknown)
         self.states = 0
         self.forks = []      # blocks where a switch on an unknown value sent the exploration down >1 edge
+        self.assert_unknown = set()   # assert blocks whose condition was not decided on some visit
 
     def callees(self):
         return {c.name for _, c, _ in self.calls}
@@ -115,6 +116,8 @@ class PE:
         self.max_states = max_states
         # predicate(Call) -> structural equality is a valid model of this PartialEq call
         self.eq_ok = eq_ok
+        # optional observer: visit_hook(bb, env, first) -> "stop" to cut the exploration at this state
+        self.visit_hook = None
 
     # ------------------------------------------------------------ env access
     def read_place(self, env, place):
@@ -621,6 +624,8 @@ class PE:
             res.visited.add(bb)
             if bb in stop and not first:
                 continue
+            if self.visit_hook is not None and self.visit_hook(bb, env, first) == "stop":
+                continue
             env = dict(env)
             blk = body.blocks[bb]
             if not (first and at_start_skip_stmts):
@@ -658,6 +663,8 @@ class PE:
                     res.panics.add(bb)
                     nxt = []
                 else:
+                    if v is None or v[0] != "b":
+                        res.assert_unknown.add(bb)
                     nxt = [t["t"]]
             elif k == "drop":
                 nxt = [t["t"]]
